@@ -154,8 +154,8 @@ static void run_decode(const Spec& s, void* mem, const std::vector<uint8_t>& pkt
 // unrelated activity between the twins' runs of a step
 static void noise(uint32_t seed) {
   vp::Rng rng(seed);
-  int what = rng.range(0, 3);
-  if (what == 0) return;
+  int what = rng.range(0, 6);
+  if (what == 0 || what > 3) return;
   int Fs = cu::RATES[rng.range(0, 4)], ch = rng.range(1, 2);
   if (what & 1) {
     int err; OpusEncoder* e = opus_encoder_create(Fs, ch, cu::APPS[rng.range(0, 2)], &err);
@@ -234,6 +234,33 @@ static int compare_out(const Out& a, const Out& b, Report& rep, const char* exp,
   }
   if (a.range != b.range) return rep.fail(sigf_("c12:%s:%s:final-range-differs", exp, kind), "%s step %d (%s): final range %08x vs %08x", kind, step, what, a.range, b.range);
   return 0;
+}
+
+// ---- F2 class predicate: run-time fields that OPUS_RESET_STATE leaves behind (layout prefixes mirrored from src/opus_encoder.c and
+// celt/celt_encoder.c; used only to delimit the known-finding class, never by the oracle) ----
+extern "C" {
+#include "control.h"
+}
+struct EncPrefix { int celt_enc_offset; int silk_enc_offset; silk_EncControlStruct silk_mode; };
+struct CeltPrefix { const void* mode; int channels; int stream_channels; int force_intra; int clip; int disable_pf; };
+// bit 0: LBRR hysteresis set, bit 1: bandwidth-switch permission set, bit 2: CELT prediction flags not at their initial value, bit 7: layout not recognised
+static int peek_stale_one(const OpusEncoder* e, int Fs) {
+  const EncPrefix* p = (const EncPrefix*)e;
+  if (p->silk_enc_offset <= 0 || p->celt_enc_offset <= p->silk_enc_offset || p->silk_mode.API_sampleRate != Fs) return 128;
+  const CeltPrefix* cp = (const CeltPrefix*)((const char*)e + p->celt_enc_offset);
+  if (cp->channels < 1 || cp->channels > 2) return 128;
+  return (p->silk_mode.LBRR_coded ? 1 : 0) | (p->silk_mode.allowBandwidthSwitch ? 2 : 0) | ((cp->force_intra || cp->disable_pf) ? 4 : 0);
+}
+static int peek_stale(const Spec& s, void* mem) {
+  if (s.kind == K_ENC) return peek_stale_one((const OpusEncoder*)mem, s.Fs);
+  int m = 0;
+  for (int i = 0; i < s.streams; i++) {
+    OpusEncoder* e = nullptr;
+    int r = s.kind == K_MSENC ? opus_multistream_encoder_ctl((OpusMSEncoder*)mem, OPUS_MULTISTREAM_GET_ENCODER_STATE(i, &e)) : opus_projection_encoder_ctl((OpusProjectionEncoder*)mem, OPUS_MULTISTREAM_GET_ENCODER_STATE(i, &e));
+    if (r != OPUS_OK || !e) return 128;
+    m |= peek_stale_one(e, s.Fs);
+  }
+  return m;
 }
 
 struct Inst {
@@ -363,9 +390,19 @@ int vp_case(Choice& c, Report& rep) {
         memset(A.p(), 0xDD, size); delete A.mem; A.mem = nullptr;
         X = R.p(); rep.label("cloned"); rep.note("%d: memcpy clone, original destroyed", i);
       } else if (exp == X_RESET) {
-        if (is_enc(kind) && f2_fec_seen && rep.exclude("F2")) {
-          // F2 (a): keep FEC off after the reset when it was active before it (stale LBRR hysteresis)
-          Step off; off.type = 1; off.rid = S_FEC; off.val = 0; if (apply_step_ctl(s, X, off, rep)) return 1; track.set[S_FEC] = true; track.val[S_FEC] = 0;
+        if (is_enc(kind)) {
+          // F2: the encoder reset leaves four run-time fields of the configuration part behind.  Class (exact, by inspection of
+          // the state at the reset point): (a) LBRR hysteresis flag set -> FEC is kept off after the reset; (b) voice ratio ->
+          // the first frame after the reset is never digital silence (below); (c) SILK bandwidth-switch permission set or
+          // (d) MDCT prediction flags not at their initial value -> the reset comparison is skipped.
+          int stale = peek_stale(s, X);
+          if (stale & 128) return rep.fail("c12:peek-layout", "encoder state prefix not recognised");
+          if (stale & 1) rep.label("f2:lbrr-set-at-reset"); if (stale & 2) rep.label("f2:bwswitch-set-at-reset"); if (stale & 4) rep.label("f2:celt-pred-set-at-reset");
+          if ((stale & 6) && rep.exclude("F2")) { rep.label("reset-skipped-F2"); rep.fingerprint(fp); return 0; }
+          if ((stale & 1) && rep.exclude("F2")) {
+            f2_fec_seen = true;
+            Step off; off.type = 1; off.rid = S_FEC; off.val = 0; if (apply_step_ctl(s, X, off, rep)) return 1; track.set[S_FEC] = true; track.val[S_FEC] = 0;
+          }
         }
         r = obj_ctl(s, X, OPUS_RESET_STATE, 0); rep.count();
         if (r != OPUS_OK) return rep.fail("c12:reset-status", "%s RESET_STATE returned %d", KN, r);
@@ -398,10 +435,8 @@ int vp_case(Choice& c, Report& rep) {
         // setting, which then survives the reset; such packets are avoided before the reset
         bool fauto = !track.set[S_FORCE_CHANNELS] || track.val[S_FORCE_CHANNELS] == OPUS_AUTO;
         if (st.d > 3 && s.coupled > 0 && fauto && s.mapping_type == 0 && s.app != OPUS_APPLICATION_RESTRICTED_LOWDELAY && rep.exclude("F15")) st.d = 3;
-        if (track.set[S_FEC] && track.val[S_FEC] != 0 && track.set[S_LOSS] && track.val[S_LOSS] > 0) f2_fec_seen = true;
       }
       if (exp == X_RESET && i >= split) {
-        if (track.set[S_FEC] && track.val[S_FEC] != 0 && f2_fec_seen && rep.exclude("F2")) { /* unreachable: FEC is forced off above */ }
         // F2 (b): the first frame after the reset must not be digital silence (stale voice_ratio is kept over silent frames)
         if (first_after_reset && rep.exclude("F2")) { st.fam = sig::SQUARE; if (st.amp < 0.1) st.amp = 0.1; }
         first_after_reset = false;
